@@ -241,6 +241,9 @@ def rnd_settings(rng):
     if rng.random() < 0.5:
         for code in rng.sample(['M204', 'M205', 'M117', 'M73', 'G4', 'M106'], rng.randint(1, 3)):
             ext[code] = rng.choice(genprog.EXT_MODES)
+    if rng.random() < 0.35:
+        for code in rng.sample(sorted(ext), rng.randint(1, min(3, len(ext)))):
+            del ext[code]                     # codes taken out of the table (at run time: they must stop being withheld)
     st = dict(clear=rng.random() < 0.4, shrink=rng.random() < 0.3, g90e=rng.random() < 0.3,
               enter=rng.choice([[], [], ['M117 in'], ['M106 S0', 'M117 skip'], ['@OCTOLAPSE TAKE-SNAPSHOT', 'M117 in'], ['SET_PIN PIN=fan VALUE=0']]),
               exit=rng.choice([[], [], ['M117 out'], ['M106 S255', 'G4 P1'], ['M117 out', '@fan_restore'], ['RESTORE_GCODE_STATE NAME=skip', 'M400']]), ext=ext)
@@ -288,7 +291,8 @@ def grow(rng, d, exact=True):
             g = rng.choice([0, 0, 1, 2.5])
             return dict(type='RectangularRegion', id=d['id'], x1=x1 - g, y1=y1 - g, x2=x2 + g, y2=y2 + rng.choice([0, g]))   # same floats: exact
         if k < 0.5:
-            return dict(type='RectangularRegion', id=d['id'], x1=x1 + 1, y1=y1, x2=x2, y2=y2)
+            # smaller: by a unit, or by a hair (2^-20: exact in binary64, far below any plausible tolerance)
+            return dict(type='RectangularRegion', id=d['id'], x1=x1 + rng.choice([1, 1, 2.0 ** -20]), y1=y1, x2=x2, y2=y2 - rng.choice([0, 0, 2.0 ** -20]))
         if k < 0.8:
             # circle around the rectangle: circumscribed (touching the corners), larger, or slightly too small
             cx, cy = (x1 + x2) / 2, (y1 + y2) / 2
@@ -304,7 +308,7 @@ def grow(rng, d, exact=True):
         dx = rng.choice([0, 0, 1])
         return dict(type='CircularRegion', id=d['id'], cx=cx + dx, cy=cy, r=r + (rng.choice([0, 1, 1, 2]) if (exact or dx == 0) else rng.choice([0.5, 2])))
     if k < 0.5:
-        return dict(type='CircularRegion', id=d['id'], cx=cx, cy=cy, r=r - 0.5)
+        return dict(type='CircularRegion', id=d['id'], cx=cx, cy=cy, r=r - rng.choice([0.5, 0.5, 2.0 ** -20]))
     if k < 0.85:
         g = rng.choice([0, 0, 0.5, -0.25]) if exact else rng.choice([0.5, -0.25])
         return dict(type='RectangularRegion', id=d['id'], x1=cx - r - g, y1=cy - r - g, x2=cx + r + g, y2=cy + r + g)
@@ -428,7 +432,8 @@ def merge_into(r, ctx, tag, nq, nt, extra=()):
 def atc_history(rng):
     """a print during which the @-command action table is edited: commands added, removed, patterns changed"""
     reg = dict(type='RectangularRegion', id='a1', x1=10.0 + 1.0 / 2048, y1=10.0 + 1.0 / 2048, x2=20.0 + 1.0 / 2048, y2=20.0 + 1.0 / 2048)
-    tables = [DEFAULT_ATC, DEFAULT_ATC + [('Purge', None, 'disable_exclusion')], [DEFAULT_ATC[0], ('Purge', '^\\s*now', 'disable_exclusion')],
+    tables = [DEFAULT_ATC, DEFAULT_ATC + [('Purge', None, 'disable_exclusion')], DEFAULT_ATC + [('ExcludeRegion', '^\\s*off', 'disable_exclusion')],
+              [('Purge', None, 'disable_exclusion'), ('Purge', '^\\s*now', 'disable_exclusion'), DEFAULT_ATC[0]], [DEFAULT_ATC[1], DEFAULT_ATC[0]], [DEFAULT_ATC[0], ('Purge', '^\\s*now', 'disable_exclusion')],
               DEFAULT_ATC + [('Resume', '^\\s*go', 'enable_exclusion'), ('Purge', None, 'disable_exclusion')], [], [DEFAULT_ATC[1]]]
     st = rnd_settings(rng)
     st['atc'] = rng.choice(tables)
@@ -437,12 +442,78 @@ def atc_history(rng):
     e = 1.0
     for _ in range(rng.randint(3, 8)):
         k = rng.random()
-        if k < 0.35:
+        if k < 0.3:
             st = dict(st); st['atc'] = rng.choice(tables)
             evs.append(('settings', st))
+        e += 0.5
+        if rng.random() < 0.6:
+            # go inside, then talk to the plugin: a disable arriving mid-episode has to close it properly
+            evs.append(('cmd', rng.choice(['G1 X15 Y15 E%.1f', 'G1 X12 Y18 E%.1f']) % e))
+            if rng.random() < 0.5:
+                evs.append(('cmd', rng.choice(['M117 inside', 'M204 S800', 'G1 X16 Y16'])))
+            evs.append(('at', rng.choice(['@Purge', '@Purge now', '@ExcludeRegion off', '@ExcludeRegion off', '@Resume go', '@ExcludeRegion on']), False))
+            e += 0.5
         elif k < 0.75:
             evs.append(('at', rng.choice(['@Purge', '@Purge now', '@Resume go', '@ExcludeRegion on', '@ExcludeRegion off', '@Resume']), False))
-        e += 0.5
         evs.append(('cmd', rng.choice(['G1 X15 Y15 E%.1f', 'G1 X30 Y30 E%.1f', 'G1 X12 Y18 E%.1f', 'G1 X5 Y30 E%.1f']) % e))
     evs.append(('event', 'PRINT_DONE'))
     return dict(settings=st0, events=evs)
+
+
+def ext_edit_history(rng):
+    """a print during which the table of deferred codes and the scripts are edited between two episodes"""
+    reg = dict(type='RectangularRegion', id='e1', x1=10.0 + 1.0 / 2048, y1=10.0 + 1.0 / 2048, x2=20.0 + 1.0 / 2048, y2=20.0 + 1.0 / 2048)
+    st = rnd_settings(rng)
+    st['ext'] = dict(genprog.DEFAULT_EXT)
+    st['ext'].update(dict((c, rng.choice(genprog.EXT_MODES)) for c in rng.sample(['M106', 'M900', 'M220', 'G4'], 2)))
+    st0 = dict(st)
+    codes = ['G4 P100', 'M117 msg %d', 'M204 S%d', 'M73 P%d', 'M106 S%d', 'M900 K0.%d', 'M220 S%d', 'M0117 zero %d', 'M205 X%d']
+    evs = [('api', 'addExcludeRegion', reg, False), ('event', 'PRINT_STARTED'), ('cmd', 'G28'), ('cmd', 'G1 X5 Y5 Z0.3 E1 F3000')]
+    e = 1.0
+    for episode in range(rng.randint(2, 3)):
+        e += 0.5
+        evs.append(('cmd', 'G1 X15 Y15 E%.1f' % e))
+        for c in rng.sample(codes, rng.randint(2, 5)):
+            evs.append(('cmd', c % rng.randint(1, 9) if '%' in c else c))
+        e += 0.5
+        evs.append(('cmd', 'G1 X30 Y30 E%.1f' % e))
+        if rng.random() < 0.8:
+            st = dict(st)
+            ext = dict(st['ext'])
+            for c in rng.sample(sorted(ext), min(len(ext), rng.randint(1, 3))):
+                del ext[c]
+            if rng.random() < 0.4:
+                ext[rng.choice(['M106', 'M900', 'M220'])] = rng.choice(genprog.EXT_MODES)
+            st['ext'] = ext
+            evs.append(('settings', st))
+    evs.append(('event', 'PRINT_DONE'))
+    return dict(settings=st0, events=evs)
+
+
+def hook_history(rng):
+    """a job that ends while an episode is open, in the ways the clean-up hook has to cope with: regions deleted or replaced under the
+    tool, exclusion switched off and on, pause / resume, mode and unit switches inside the episode, the hook called twice"""
+    reg = dict(type='RectangularRegion', id='h1', x1=10.0 + 1.0 / 2048, y1=10.0 + 1.0 / 2048, x2=20.0 + 1.0 / 2048, y2=20.0 + 1.0 / 2048)
+    st = rnd_settings(rng)
+    st['shrink'] = rng.random() < 0.7
+    evs = [('api', 'addExcludeRegion', reg, False), ('event', 'PRINT_STARTED'), ('cmd', 'G28'), ('cmd', 'G1 X5 Y5 Z0.3 E1 F3000'), ('cmd', 'G1 X15 Y15 E1.5')]
+    for _ in range(rng.randint(0, 4)):
+        k = rng.random()
+        if k < 0.25:
+            evs.append(('api', 'deleteExcludeRegion', dict(id='h1'), False))
+        elif k < 0.4:
+            evs.append(('api', 'updateExcludeRegion', dict(type='CircularRegion', id='h1', cx=15.0, cy=15.0, r=rng.choice([1.0, 30.0])), False))
+        elif k < 0.55:
+            evs.append(('cmd', rng.choice(['G91', 'G20', 'G90', 'G21', 'M204 S500', 'M117 x', 'G1 Z1', 'G1 E1', 'G10'])))
+        elif k < 0.7:
+            evs.append(('event', rng.choice(['PRINT_PAUSED', 'PRINT_RESUMED'])))
+        elif k < 0.8:
+            evs.append(('at', rng.choice(['@ExcludeRegion off', '@ExcludeRegion on']), False))
+        else:
+            evs.append(('cmd', rng.choice(['G1 X16 Y16 E2', 'G1 X12 Y12'])))
+    evs.append(('script', 'gcode', 'afterPrintDone'))
+    if rng.random() < 0.5:
+        evs.append(('script', 'gcode', 'afterPrintDone'))
+    evs.append(('event', rng.choice(['PRINT_DONE', 'PRINT_CANCELLED'])))
+    evs.append(('script', 'gcode', 'afterPrintDone'))
+    return dict(settings=st, events=evs)
